@@ -382,8 +382,36 @@ def number_reader_refuses_only_non_numbers(chk, prog):
     il = [bb for bb, t in f.calls() if callee_short(t) == 'str::parse' and 'i32' in t.get('dty', '')]
     if not chk.anchor(RN, 'str::parse::<f32> in read_number', fl):
         return
-    own = [(b, d_) for b, d_, s_ in err_exits(prog, f) if s_ is None]
+    exits_ = err_exits(prog, f)
+    own = [(b, d_) for b, d_, s_ in exits_ if s_ is None]
     n = 0
+    # an error handed on from the float parse itself (`.parse::<f32>().map_err(..)` as the result) is the sanctioned form;
+    # one handed on from the integer parse is a refusal before the float parse
+    def _root(src):
+        # walk back through Result / Option adaptors (`.map(..).map_err(..)`) to the call that produced the value
+        from analysis.defuse import du
+        bb_, t_ = src[0], src[1]
+        for _ in range(6):
+            cs_ = callee_short(t_)
+            if not (cs_.split('::')[0] in ('Result', 'Option') and t_['args'] and t_['args'][0].get('k') in ('copy', 'move')
+                    and 'p' not in t_['args'][0]['pl']):
+                break
+            dfs = [d for d in du(f).defs.get(t_['args'][0]['pl']['l'], []) if d['kind'] == 'call']
+            if len(dfs) != 1:
+                break
+            bb_, t_ = dfs[0]['bb'], dfs[0]['term']
+        return bb_
+    for b, d_, s_ in exits_:
+        if s_ is None:
+            continue
+        s_ = (_root(s_), s_[1])
+        if s_[0] in fl:
+            n += 1
+            chk.ok(RN, chk.key(RN, 'float-parse-error-handed-on'), 'the error is the float parse\'s own refusal', f.loc(b))
+        elif s_[0] in il:
+            n += 1
+            chk.fail(RN, chk.key(RN, 'int-parse-error-handed-on'), 'read_number hands on the error of str::parse::<i32>: a '
+                     'number that is not a 32-bit integer is refused without the float parse', f.loc(b))
     for b, d_ in own:
         n += 1
         ok = any(g.dominates(p, b) for p in fl)
@@ -402,4 +430,4 @@ def number_reader_refuses_only_non_numbers(chk, prog):
         chk.decide(RN, chk.key(RN, 'int-failure-falls-through', '#%d' % i), okw,
                    'without an i32 the text goes on to the float parse',
                    'after str::parse::<i32> read_number can return without the float parse and without an integer', f.loc(p))
-    chk.floor(RN, 'own error exits of read_number', n, 1)
+    chk.floor(RN, 'error exits of read_number that concern the number text', n, 1)
